@@ -56,6 +56,7 @@ func propSpecs() map[string]*PropSpec {
 				{Name: "H02", Quick: P{"allowmask": 12, "requiremask": 4, "excludemask": 16, "strings": 3, "reqsets": 8, "L": 2, "T": 2},
 					Thorough: P{"allowmask": 31, "requiremask": 31, "excludemask": 31, "strings": 1, "reqsets": 1, "L": 1, "T": 1},
 					Reach:    []string{"returned", "accepted", "empty-alphabet"}},
+				{Name: "H02", Label: "after-sibling-call", Quick: P{"allowmask": 4, "requiremask": 0, "excludemask": 16, "strings": 2, "reqsets": 8, "L": 1, "T": 1, "primes": 5}, Thorough: P{"allowmask": 4, "requiremask": 4, "excludemask": 16, "strings": 3, "reqsets": 8, "L": 2, "T": 2, "primes": 5}, Reach: []string{"returned", "primed"}},
 				{Name: "H02", Label: "custom-strings", ThoroughOnly: true, Thorough: P{"allowmask": 14, "requiremask": 12, "excludemask": 20, "strings": 8, "reqsets": 8, "L": 2, "T": 2},
 					Reach: []string{"returned", "accepted", "accepted-after-retry"}},
 			},
@@ -102,6 +103,7 @@ func propSpecs() map[string]*PropSpec {
 				{Name: "H07", Quick: P{"a": 2, "k": 2, "m": 2, "L": 3}, Thorough: P{"a": 2, "k": 3, "m": 2, "L": 3}, Reach: []string{"computed", "overlapping-required-sets", "impossible"}},
 				{Name: "H07", Label: "long", Quick: P{"a": 2, "k": 2, "m": 2, "big": 1}, Thorough: P{"a": 2, "k": 3, "m": 2, "big": 1}, Reach: []string{"computed", "overlapping-required-sets"}},
 				{Name: "H07", Label: "class-flags", Quick: P{"a": 0, "k": 2, "m": 1, "L": 2, "flags": 4}, Thorough: P{"a": 1, "k": 2, "m": 1, "L": 3, "flags": 4}, Reach: []string{"computed", "overlapping-required-sets", "premise-excluded"}},
+				{Name: "H07", Label: "after-sibling-call", Quick: P{"a": 1, "k": 2, "m": 2, "L": 2, "primes": 5}, Thorough: P{"a": 2, "k": 2, "m": 2, "L": 3, "primes": 5}, Reach: []string{"computed", "primed"}},
 				{Name: "H07", Label: "four-sets", ThoroughOnly: true, Thorough: P{"a": 1, "k": 4, "m": 1, "L": 3}, Reach: []string{"computed", "overlapping-required-sets"}},
 			},
 			Bounds: map[string]string{
@@ -117,6 +119,7 @@ func propSpecs() map[string]*PropSpec {
 				{Name: "H13n", Reach: []string{"refused"}},
 				{Name: "H13b", Quick: P{"a": 1, "k": 2, "m": 2, "L": 2, "flags": 1}, Thorough: P{"a": 2, "k": 2, "m": 2, "L": 3, "flags": 1}, Reach: []string{"computed", "comfortably-acceptable", "clearly-unacceptable"}},
 				{Name: "H13b", Label: "class-flags", Quick: P{"a": 0, "k": 2, "m": 1, "L": 2, "flags": 3}, Thorough: P{"a": 1, "k": 2, "m": 1, "L": 3, "flags": 4}, Reach: []string{"computed", "comfortably-acceptable", "clearly-unacceptable"}},
+				{Name: "H13b", Label: "after-sibling-call", Quick: P{"a": 1, "k": 2, "m": 2, "L": 2, "flags": 1, "primes": 5}, Thorough: P{"a": 1, "k": 2, "m": 2, "L": 3, "flags": 1, "primes": 5}, Reach: []string{"computed", "primed"}},
 				{Name: "H02", Label: "retry-budget", Quick: P{"allowmask": 4, "requiremask": 4, "excludemask": 16, "strings": 2, "reqsets": 6, "L": 2, "T": 3}, Thorough: P{"allowmask": 12, "requiremask": 12, "excludemask": 16, "strings": 3, "reqsets": 8, "L": 2, "T": 4}, Reach: []string{"exhausted", "accepted-after-retry"}},
 			},
 			Bounds: map[string]string{
@@ -169,6 +172,47 @@ func propSpecs() map[string]*PropSpec {
 			},
 			Assume: commonAssume,
 			Extra:  c09NativeDeterminism,
+		},
+		{
+			ID: "C14", Sub: "spg", Level: "model_checking",
+			Harnesses: []HSpec{
+				{Name: "H14", Quick: P{"unwind:randomUint32n": 2, "unwind_expected": 1}, Thorough: P{"unwind:randomUint32n": 3, "unwind_expected": 1}, Reach: []string{"called"}},
+			},
+			Bounds: map[string]string{
+				"H14":     "shared values: a CharRecipe with custom required sets (one empty), a WordList, a WLRecipe with scheme 'one' and a constructed separator function whose recipe has a requirement, the seven separator presets; one API call (Generate, Entropy, Alphabet, SuccessProbability, Size, a separator call) followed by a second call, with draws summarised, and three calls with the real kernel on symbolic source bytes; MaxTrials 2",
+				"claim":   "sequential non-interference: on every explored path no Store / map update / delete / in-place append executed inside the call targets an object that existed before the call (receiver backing arrays, word list, closure environments, package-level variables). Read-only sharing implies data-race freedom for every interleaving (reasoned, not solved); interleavings are not explored symbolically",
+				"confirm": "a path that does write shared memory is a candidate; it is reported only when the native stress test (8 goroutines x 400 calls on the same values, go test -race, results validated) reports a data race or an invalid result; the thorough tier always runs the stress test",
+				"outside": "recipes outside the listed shared values; races inside crypto/rand, fmt or golang-set's own locking (assumed goroutine-safe as documented); writes made under a lock are cleared, not convicted, by the native run",
+			},
+			Assume:  commonAssume,
+			Confirm: c14RaceConfirm,
+			Extra:   c14RaceAlways,
+		},
+		{
+			ID: "C15", Sub: "spg", Level: "model_checking",
+			Harnesses: []HSpec{
+				{Name: "H15a", Reach: []string{"called"}},
+				{Name: "H15b", Reach: []string{"evaluated"}},
+				{Name: "H15w", Reach: []string{"evaluated"}},
+			},
+			Bounds: map[string]string{
+				"H15a":    "the shared values of H14; after each of nine API calls the caller's RequireSets slice, the slice passed to NewWordList, the word list and every public field are compared with their values before the call",
+				"H15b":    "eight character recipes that differ only in how the required characters are grouped (lookalikes under joining with nothing, a comma or a blank; an empty set in the middle; none): Entropy, Alphabet, SuccessProbability and Generate on a fresh recipe, against the same calls after a full call sequence on any other recipe of the family, with the final recipe either constructed anew or obtained by a caller-side update of RequireSets; the draws of the two Generate calls are aligned by assumption, so equality of the results is a solver query over all draws; MaxTrials 2",
+				"H15w":    "five wordlist recipes (scheme, preset separators, a different list), any earlier recipe, then a caller-side update of all fields",
+				"outside": "call histories longer than one full call sequence; recipes outside the families",
+			},
+			Assume: commonAssume,
+		},
+		{
+			ID: "C18", Sub: "spg", Level: "model_checking",
+			Harnesses: []HSpec{
+				{Name: "H18", Reach: []string{"called", "password", "error"}},
+			},
+			Bounds: map[string]string{
+				"H18":     "seven generation scenarios (character recipe with a requirement: accepted, retried and exhausted with MaxTrials 1..2; non-ASCII alphabet; refused recipes; wordlist recipe with 'random' capitalisation and a constructed separator whose requirement can fail; a word list with a duplicate; entropy and probability queries); every value derived from a random draw is tainted (terms over draw variables, strings chosen through a draw) and every argument of fmt.Print*/Fprint*, log.*, os.File.Write and println is checked on every path; the diagnostics that do occur must be the three known ones",
+				"outside": "implicit (control-flow) leaks: a message printed iff a secret has some property; sinks other than the listed ones",
+			},
+			Assume: commonAssume,
 		},
 		{
 			ID: "C11", Sub: "spg", Level: "model_checking",
